@@ -703,6 +703,18 @@ impl Drop for HConn {
                 // (a shareable connection occupies an idle slot with the pool's own handle for as long as it lives)
                 let peers = w.conns.iter().enumerate().filter(|(i, c)| *i != id && c.okey == okey && c.open && c.handles >= 1 && (c.shareable || c.holders.is_empty())).count();
                 w.conns[id].drop_peers = Some(peers);
+                // C04: the hand-back task has just seen this connection ready (it entered the pool in this very
+                // step), nobody lacks a connection for its origin, and fewer open connections than the limit
+                // are idle there (closed entries make room) - yet it was dropped: the next request dials
+                // although this one could have been kept for it
+                let plain_h1 = !w.conns[id].h2 && !w.dials[w.conns[id].dial].h2req && !w.cfg.single_use;
+                if w.actor() == Actor::Bg && plain_h1 && !w.conns[id].shareable && w.conns[id].ready && w.conns[id].entry_step == Some(w.step) && peers < w.cfg.max_idle {
+                    let (def, maybe) = w.hungry(&okey, None);
+                    if def.is_empty() && maybe.is_empty() && !w.reqs.iter().any(|r| r.okey == okey && r.status == RStatus::Unpolled) {
+                        let msg = format!("connection #{id} of {okey} was handed back ready with nobody waiting and {peers} open idle connection(s) under max_idle {}, and was dropped instead of kept", w.cfg.max_idle);
+                        w.violate("C04/released-connection-dropped-although-the-idle-list-has-room", msg);
+                    }
+                }
                 // C14: the holder's release itself (not the cancellation of a request that had merely been
                 // assigned an idle connection) destroyed an open single-use connection (no hand-back
                 // task ever looked at it) while a polled request of the same origin waits for its own
